@@ -63,6 +63,7 @@ func (c *SumCommand) execute(tow io.Writer) (err error) {
 	}
 	for _, item := range items {
 		now := whispertool.TimestampFromStdTime(time.Now())
+		now = verifNow(now)
 		var until whispertool.Timestamp
 		if c.Until == 0 {
 			until = now
